@@ -209,6 +209,18 @@ var registry = []propertySpec{
 		Outside:     "JavaScript / URL contexts (location.href is checked as an attribute only), multi-byte sequences forming an entity, two tainted values at once, html query output (C15 harness), well-nestedness tokenising",
 	},
 	{
+		ID:    "C17",
+		Files: map[string][]string{"html": {"zz_verif_html_lib.go", "zz_verif_c17.go"}},
+		Harnesses: []harnessSpec{
+			{Name: "VerifC17_Hidden", Pkg: "html", Quick: tierSpec{Cases: 16}, Thorough: tierSpec{Cases: 16}, Sched: -1, Invariant: []string{"site"},
+				Bounds: "a dead couple and child plus one living person in 8 roles (child of dead parents, spouse, unconnected, sharing a surname / a place with a dead person, living by the age rule only, burial without death, parent of a dead child) x {hide, placeholder}; the living person's given name, surname, alternative name and place are marker tokens with 2 symbolic letters each, the birth year is symbolic 1960..2005; all page groups"},
+			{Name: "VerifC17_Shown", Pkg: "html", Quick: tierSpec{Cases: 8}, Thorough: tierSpec{Cases: 8}, Sched: -1,
+				Bounds: "control: the same documents in show mode"},
+		},
+		Assumptions: []string{"time.Now() is the host clock read once per run (people born 1960..2005 without death are living under the default 100-year rule)"},
+		Outside:     "more than one living person, jobs > 1 (C19), subsets of page groups, the CLI wrapper",
+	},
+	{
 		ID:    "C04",
 		Files: map[string][]string{"": {"zz_verif_lib.go", "zz_verif_c04.go"}},
 		Harnesses: []harnessSpec{
